@@ -96,6 +96,11 @@ impl Exp {
                     if let Exp::Number(coefficient) = &**lhs {
                         // exact test: near-zero coefficients are still meaningful scales
                         if *coefficient == 0.0 {
+                            //nothing is left of the operand, but a division inside of it
+                            //still has to be diagnosed
+                            if rhs.contains_division() {
+                                rhs.linearize(linearizer_context, ValueRequirement::Exact)?;
+                            }
                             return Ok(LinearizationContext::from_rhs(0.0));
                         }
                         let mut rhs = rhs.linearize(
@@ -106,6 +111,9 @@ impl Exp {
                         Ok(rhs)
                     } else if let Exp::Number(coefficient) = &**rhs {
                         if *coefficient == 0.0 {
+                            if lhs.contains_division() {
+                                lhs.linearize(linearizer_context, ValueRequirement::Exact)?;
+                            }
                             return Ok(LinearizationContext::from_rhs(0.0));
                         }
                         let mut lhs = lhs.linearize(
